@@ -294,6 +294,12 @@ WHOLE_THM = {
            "schema version 1), entry_references.",
     "C15": "Theorems/C15b: tool_flag_irrelevant (end to end: without test/tests/docs directories the flag changes nothing of the "
            "run), tool_analysed_kept (every walked module is a discovered file or the __init__ of a discovered package).",
+    "C03": "Theorems/C03b: tool_emission_log (end to end: the emission log of a completed run is exactly the module logs of the "
+           "analysed non-__init__ modules in API order followed by the re-export phase of what was queued).",
+    "C14": "Theorems/C14b: tool_warning_option_pure (end to end: two runs that differ only in the warning option end with the same "
+           "error or the same API, API text, stubs and write log; only the warning list may differ).",
+    "C16": "Theorems/C16b: tool_second_run_partial (end to end: a second run into the directory the first run filled computes the "
+           "same result and leaves every file unchanged; for coherent foreign class paths), getApi_ignores_output_dir.",
     "C18": "Theorems/C18b: alias_table_monotone, alias_lookup_local (aliases[name] changes only through expressions that "
            "contribute under that short name), counterexamples same_short_name_interferes, substring_package_test.",
 }
